@@ -43,6 +43,31 @@ class FileProxy:
         return getattr(self._f, n)
 
 
+import io
+
+
+class TracedWriter(io.BufferedWriter):
+    """a real buffered binary writer (NumPy keeps its direct-descriptor `tofile` path for it) whose write/flush/close are visible"""
+
+    def __init__(self, raw, hook, name):
+        super().__init__(raw)
+        self._jv_hook, self._jv_name = hook, name
+
+    def write(self, b):
+        self._jv_hook('write', self._jv_name, len(memoryview(b).cast('B')))
+        return super().write(b)
+
+    def flush(self):
+        if not self.closed:
+            self._jv_hook('flush', self._jv_name)
+        return super().flush()
+
+    def close(self):
+        if not self.closed:
+            self._jv_hook('fclose', self._jv_name)
+        return super().close()
+
+
 def install(hook, wrap_files=False):
     """returns undo(). hook(prim, path, *extra) is called before each primitive."""
     import jug.backends.file_store as fs
@@ -63,6 +88,9 @@ def install(hook, wrap_files=False):
         def fdopen(self, fd, *a, **k):
             name = fdnames.get(fd, '<fd>')
             hook('fdopen', name)
+            mode = a[0] if a else k.get('mode', 'r')
+            if wrap_files and mode == 'wb':
+                return TracedWriter(io.FileIO(fd, 'wb'), hook, name)
             f = os.fdopen(fd, *a, **k)
             return FileProxy(f, hook, name) if wrap_files else f
 
